@@ -302,7 +302,9 @@ def units_for(prop, tier):
         us.append({"runner": "aio", "prop": prop, "id": "reactivex/scheduler/eventloop/asynciothreadsafescheduler.py::AsyncIO(ThreadSafe)Scheduler"})
     if "evloop" in fams:
         us.append({"runner": "evloop", "prop": prop, "id": "reactivex/scheduler/eventloopscheduler.py::EventLoopScheduler"})
-    if "timeconv" in fams:
+    if "timeconv" in fams or prop in ("C15", "C16", "C17", "C18", "C37", "C22"):
+        # (the timed operators / sources and ReplaySubject's window take every span and instant through the scheduler's conversions, which
+        # their own proofs treat as "the same span / instant" (A-time): that assumption is C36's contract, re-proved here)
         us.append({"runner": "timeconv", "prop": prop, "id": "reactivex/scheduler/scheduler.py::Scheduler.time-conversions"})
     if "early" in fams:
         us.append({"runner": "early", "prop": prop, "id": "early-termination/C14"})
